@@ -7,7 +7,7 @@ spec      : spec/Lro.tla.  Part (a) generation-time resolution of operation_info
             `operation_async`) passed in a request object or flattened.  Two client instances with their
             own channels / servers live in every driver process (a poll must go out on the channel its Start went out
             on); relative names may have a namesake in an enclosing package (the method's package wins).
-            Thirteen spec mutants (`Mutant`) must be rejected by TLC.
+            Fourteen spec mutants (`Mutant`) must be rejected by TLC.
 spec->code: TLC emits every resolution case (Lro.emit.res/all.cfg) and every history for carrier cases
             (Lro.emit.run.cfg) with the predicted observables.  Each resolution case is concretised (absapi), run
             through the REAL generator with the /repo hooks on (Method event: resolved type names; or the raised
@@ -36,15 +36,17 @@ MSGS = {
     'RunMetadata': [dict(name='p', type='int32')],
 }
 DECOY = [dict(name='decoy')]
-NON_TARGET = ('dep', 'anc')
-MUTANTS = ['lose_argument', 'outermost_first', 'shared_operations_client', 'single_pass', 'prefix_qualified', 'decoy_package', 'accept_empty', 'sync_future', 'poll_when_done',
+NON_TARGET = ('dep', 'anc', 'ext_b', 'ext_a')
+NAMESAKES = ('dep', 'anc')     # files that only declare same-named messages nobody may resolve to
+MUTANTS = ['late_dependency_invisible', 'lose_argument', 'outermost_first', 'shared_operations_client', 'single_pass', 'prefix_qualified', 'decoy_package', 'accept_empty', 'sync_future', 'poll_when_done',
            'fresh_channel', 'wrong_name', 'drop_metadata_type', 'swallow_error']
 EVENT_FIELDS = dict(ev='', kind='', resp='', meta='', err='', rpc='', chan=0, name='', future='', type='', value=0,
                     mtype='', mvalue=0, code=0)
 
 
 def file_name(fid):
-    return {'dep': 'other/dep/v1/dep.proto', 'anc': 'acme/anc.proto'}.get(fid, f'acme/lr/v1/{fid}.proto')
+    return {'dep': 'other/dep/v1/dep.proto', 'anc': 'acme/anc.proto', 'ext_b': 'other/ext/v1/ext_b.proto',
+            'ext_a': 'other/ext/v1/ext_a.proto'}.get(fid, f'acme/lr/v1/{fid}.proto')
 
 
 def concretise(case, experimental=False):
@@ -55,10 +57,10 @@ def concretise(case, experimental=False):
             continue            # google/protobuf/empty.proto: the installed descriptor (absapi std deps)
         fd = dict(name=file_name(f['id']), package=f['pkg'], target=bool(f['target']),
                   imports=[file_name(i) for i in f['imports'] if i != 'empty'],
-                  messages=[dict(name=m, fields=DECOY if f['id'] in NON_TARGET else
+                  messages=[dict(name=m, fields=DECOY if f['id'] in NAMESAKES else
                                  [dict(name=case['fld'])] if m == 'Req' else MSGS[m]) for m in f['msgs']])
         if f['id'] in NON_TARGET:
-            fd['std_deps'] = []     # same-named messages in a foreign (dep) / an ENCLOSING (anc) package
+            fd['std_deps'] = []     # dependency packages: namesakes (dep, anc) or the annotated types themselves (ext_*)
         if f['id'] == 'lr':
             m = dict(name='Run', **{'in': 'Req', 'out': case['outType'] if case['out'] == 'op' else 'Thing'},
                      http=[dict(verb='post', uri='/v1/{%s=things/*}:run' % case['fld'], body='*')])
@@ -68,6 +70,10 @@ def concretise(case, experimental=False):
                 m['lro'] = dict(resp=case['respName'], meta=case['metaName'])
             fd['services'] = [dict(name='Lr', methods=[m])]
         files.append(fd)
+    if not case['ann'] and not experimental:
+        # no annotated method, nothing polls: the library is generated WITHOUT a service YAML, i.e. without the
+        # google.longrunning.Operations mixin (the carrier copy of this case keeps the YAML)
+        return dict(files=files)
     y = json.loads(json.dumps(OPS_YAML))
     if experimental:
         y['publishing'] = {'library_settings': [{'version': P, 'python_settings': {
@@ -118,7 +124,7 @@ def run_group(job):
         root = gen.materialise(res, os.path.join(work, 'out'))
         from ..pipeline import write_pb2
         for fdp in req.proto_file:      # protoc-style modules for the non-target API files, so that an emitted
-            if fdp.name in (file_name('dep'), file_name('anc')):      # import of them (if any) resolves
+            if fdp.name in [file_name(x) for x in NON_TARGET]:        # import of them (if any) resolves
                 write_pb2(fdp, root)
         payload = dict(api=api, module=MODULE, service='Lr', service_snake='lr', pkg=P,
                        method=dict(name='Run', snake='run', req=P + '.Req', field=case['fld'], arg=case['arg'],
@@ -369,6 +375,8 @@ def main(chk, args):
         'by the log of the recorded channel of instance i (transport host also points at server i, so a fresh channel '
         'would be seen as channel 0); (rest) = i iff it reached HTTP server i with that Host',
         'resolution cases run through instance 1; carrier cases through instance 1 and 2 (interleaved in one process)',
+        'resolution cases without operation_info are generated without a service YAML (no Operations mixin); every other '
+        'library is generated with the YAML that declares the mixin and the GetOperation http rule',
         'asyncio x rest uses the experimental rest_asyncio transport (rest_async_io_enabled) and is exercised for the '
         'carrier cases only; all other cases run sync/grpc, sync/rest, asyncio/grpc',
         'an operation error "surfaces" = result() raises a GoogleAPICallError carrying the operation\'s status code; '
